@@ -2,16 +2,14 @@ SPECIFICATION Spec
 CONSTANTS
   t1 = t1
   t2 = t2
-  t3 = t3
-  t4 = t4
   r1 = r1
   r2 = r2
   r3 = r3
   NoTarget = NoTarget
-  Cmds <- MCCmds
-  Group <- MCGroupS
+  Cmds <- CmdsB
+  Group <- GrpB
   Reqs = {r1, r2}
-  Kinds = {"plain", "forever", "upgrade"}
+  Kinds = {"plain", "forever"}
   MaxProbes = 1
   AllowBad = FALSE
   SignalAfterNotify = TRUE
@@ -19,12 +17,13 @@ CONSTANTS
 SYMMETRY Sym2
 INVARIANTS
   TypeOK
-  D_C01_a
-  D_C01_b
-  D_C01_c
   D_C02
   D_C03_a
   D_C03_b
+  D_C03_p
+  D_C07_a
+  D_C07_b
+  D_C07_f
+  D_C08
   D_C17_c
-  D_C09
 CHECK_DEADLOCK TRUE
